@@ -47,8 +47,8 @@ use crate::{
     eviction::{Eviction, Op},
     indexer::{Indexer, sentry::Sentry},
     inflight::{
-        Enqueue, FetchOrTake, FetchTarget, InflightManager, Notifier, OptionalFetch, OptionalFetchBuilder,
-        RequiredFetch, RequiredFetchBuilder, Waiter,
+        Enqueue, FetchOrTake, FetchTarget, InflightGarbage, InflightManager, Notifier, OptionalFetch,
+        OptionalFetchBuilder, RequiredFetch, RequiredFetchBuilder, Waiter,
     },
     pipe::{ArcPipe, NoopPipe},
     record::{Data, Record},
@@ -143,12 +143,17 @@ where
         record: Arc<Record<E>>,
         garbages: &mut Vec<(Event, Arc<Record<E>>)>,
         notifiers: &mut Vec<Notifier<Option<RawCacheEntry<E, S, I>>>>,
-    ) {
-        *notifiers = self
-            .inflights
-            .lock()
-            .take(record.hash(), record.key(), None)
-            .unwrap_or_default();
+    ) -> Option<InflightGarbage<E::Key, E::Value, E::Properties>> {
+        // The leftovers of the taken in-flight entry are returned to the caller, which drops them out of the lock
+        // critical section.
+        let taken = self.inflights.lock().take(record.hash(), record.key(), None);
+        let inflight_garbage = match taken {
+            Some((taken_notifiers, taken_garbage)) => {
+                *notifiers = taken_notifiers;
+                Some(taken_garbage)
+            }
+            None => None,
+        };
 
         if record.properties().phantom().unwrap_or_default() {
             if let Some(old) = self.indexer.remove(record.hash(), record.key()) {
@@ -168,7 +173,7 @@ where
             record.inc_refs(notifiers.len() + 1);
             garbages.push((Event::Remove, record));
             self.metrics.memory_insert.increase(1);
-            return;
+            return inflight_garbage;
         }
 
         let weight = record.weight();
@@ -212,6 +217,8 @@ where
             std::cmp::Ordering::Less => self.metrics.memory_usage.decrease((old_usage - self.usage) as _),
             std::cmp::Ordering::Equal => {}
         }
+
+        inflight_garbage
     }
 
     #[cfg_attr(feature = "tracing", fastrace::trace(name = "foyer::memory::raw::shard::remove"))]
@@ -596,9 +603,12 @@ where
         let mut garbages = vec![];
         let mut notifiers = vec![];
 
-        self.inner.shards[self.shard(record.hash())]
+        let inflight_garbage = self.inner.shards[self.shard(record.hash())]
             .write()
             .with(|mut shard| shard.emplace(record.clone(), &mut garbages, &mut notifiers));
+
+        // Drop the in-flight leftovers (owned key, donated fetch builder) out of the lock critical section.
+        drop(inflight_garbage);
 
         // Notify waiters out of the lock critical section.
         for notifier in notifiers {
@@ -1381,7 +1391,8 @@ where
                 let required_fetch = required_fetch_builder(ctx);
                 Try::SetStateAndContinue(RawFetchState::FetchRequired { required_fetch })
             }
-            FetchOrTake::Notifiers(notifiers) => Try::SetStateAndContinue(RawFetchState::Notify {
+            // The leftovers of the in-flight entry are dropped here, after the in-flight lock is released.
+            FetchOrTake::Notifiers(notifiers, _garbage) => Try::SetStateAndContinue(RawFetchState::Notify {
                 res: Some(res_no_fetch),
                 notifiers,
             }),
@@ -1413,8 +1424,10 @@ where
         key: &E::Key,
         inflights: &Arc<Mutex<InflightManager<E, S, I>>>,
     ) -> Try<E, S, I, C> {
-        let notifiers = match inflights.lock().take(hash, key, Some(id)) {
-            Some(notifiers) => notifiers,
+        // The leftovers of the in-flight entry are dropped at the end of the function, after the in-flight lock
+        // is released.
+        let (notifiers, _garbage) = match inflights.lock().take(hash, key, Some(id)) {
+            Some(taken) => taken,
             None => {
                 return Try::Ready;
             }
@@ -1459,11 +1472,12 @@ where
             RawFetchState::Notify { .. } | RawFetchState::Ready => return,
             RawFetchState::Init { .. } | RawFetchState::FetchOptional { .. } | RawFetchState::FetchRequired { .. } => {}
         }
-        if let Some(notifiers) = this
+        // Release the in-flight lock before notifying the waiters and dropping the leftovers of the entry.
+        let taken = this
             .inflights
             .lock()
-            .take(*this.hash, this.key.as_ref().unwrap(), Some(*this.id))
-        {
+            .take(*this.hash, this.key.as_ref().unwrap(), Some(*this.id));
+        if let Some((notifiers, _garbage)) = taken {
             for notifier in notifiers {
                 let _ =
                     notifier
